@@ -20,6 +20,27 @@ many names), each built 3 times per process from freshly constructed maps;
 8 threads first-use one OnceLock-guarded `_reconstitute`; the extracted mirrors are run on
 the implementation's own implicit-token sets / %avoid_insert sets / state graphs / table
 rows under several orders and must reproduce what the implementation printed.
+
+FAILING builds (family "failing sources", 16 processes in both tiers): grammar sources with 2-6 independent faults of one kind
+(unknown %epp, unknown rule references, unknown %expect-unused symbols, duplicate declarations, unknown %prec tokens, undefined
+start rule, unknown declarations, all at once), valid sources with several warnings, lexer sources (duplicate names, unknown /
+duplicate start states, invalid regexes) and the error STRINGS / stderr diagnostics of CTParserBuilder / CTLexerBuilder (many
+conflicts, warnings as errors, tokens missing from lexer / parser, %expect mismatch): the complete transcript (error kinds with
+their arguments, all spans, in order; warnings; error text) must be the same in every process — conflict diagnostics and the
+missing-token lists as multisets of blocks (their order is unspecified), everything else exactly.  The `%epp` loop of
+complete_and_validate is mirrored (EppModel.v: C15_validate_epp_order_insensitive for the repaired loop,
+C15_validate_epp_first_found_refuted for the pinned one) and the extracted mirror must name the error the implementation reports.
+
+STATIC TABLE (gen/c15scan.py): every place of the build path where a std HashMap/HashSet is iterated is listed, regenerated from
+the source on every run, with the audited verdict (order-free / sorted / fixed-seed / documented / leaks-order-only); an iteration
+site without an audit entry — or whose entry relied on a sort that is gone — is a violation.
+
+CPCT+ (since /repo ca69cd1 the repair sequences of one rank stay in the order in which the search found them — before, a randomly
+seeded HashSet chose the applied one): on tables without conflicts and precedence every input is also parsed with CPCT+; where the
+parse ends by itself (well inside the time budget) the tree, per error its position, state and the complete repairs() list IN ORDER,
+and the later errors are part of the cross-process digest and of the 8-thread comparison — inputs with >= 2 repair sequences of
+the first rank included (auditor's `S: 'A' X 'C'; X: 'B'|'D'|'E'|'F';` on `A C`, grammars with several choice points, and whatever
+the generators give); their number is in the evidence.
 """
 import concurrent.futures
 import hashlib
@@ -30,6 +51,7 @@ import shutil
 
 from vlib import core
 from gen import grammars as G
+from gen import c15fail, c15scan
 
 # flip to True when the corresponding fix is in /repo (the `_refuted` theorem is then replaced
 # by its positive `_fixed_` companion and ANY cross-process difference alarms)
@@ -40,7 +62,18 @@ KNOWN_IMPLICIT = ("Eco grammar with >= 2 %implicit_tokens: production numbering 
                   "depends on hash iteration order")
 KNOWN_CONFLICT_BYTES = ("generated parser module (__STABLE_DATA) depends on hash iteration order when one state has "
                         ">= 2 shift/reduce conflicts: the serialised conflict list follows the edge HashMap order")
-KNOWN_KEYS = [KNOWN_IMPLICIT, KNOWN_CONFLICT_BYTES]
+KNOWN_EPP = ("grammar with >= 2 %epp declarations for unknown tokens: which one is reported (UnknownEPP argument and span) depends on "
+             "hash iteration order")
+KNOWN_REPAIR = ("erroneous input with >= 2 repair sequences of the first rank: the applied repair (parse tree, repairs() order) is chosen "
+                "in HashSet iteration order (cpctplus::simplify_repairs)")
+# /repo ca69cd1: simplify_repairs deduplicates in insertion order and sorts stably.  False = the code before: such inputs are left
+# out of the CPCT+ comparisons (and counted)
+REPAIR_ORDER_FIXED = True
+if os.environ.get("GV_C15_REPAIR_ORDER_FIXED") in ("0", "1"):      # development aid for tools/scratch_eval.sh runs
+    REPAIR_ORDER_FIXED = os.environ["GV_C15_REPAIR_ORDER_FIXED"] == "1"
+KNOWN_KEYS = [KNOWN_IMPLICIT, KNOWN_CONFLICT_BYTES, KNOWN_EPP, KNOWN_REPAIR]
+# the pinned `for (k, (sp, _)) in self.epp.iter() { … return Err(..) }` loop was repaired in /repo 3e32e4e: ANY difference alarms
+EPP_FIXED = True
 
 WORKDIR = os.path.join(core.WORK, "c15")
 
@@ -266,7 +299,7 @@ def gen_cases(ctx):
     base = G.Gram(["a", "b"], [("S", [[t("a"), r("S")], [t("b")]])])
     for k in range(0, 7):
         add("eco_implicit_%d" % min(k, 3), "E", with_implicit(rng, base, k))
-    # a REJECTED grammar (three undeclared %epp tokens): outside the property (no build result), observed only
+    # a REJECTED grammar (three undeclared %epp tokens): the rejection must be the same everywhere (see also check_failing)
     bad = Case("invalid_epp", "O", base, {}, [])
     bad.src = bad.src.replace("%%\n", '%epp x1 "a"\n%epp x2 "b"\n%epp x3 "c"\n%%\n', 1)
     cases.append(bad)
@@ -320,6 +353,26 @@ def gen_cases(ctx):
         if rng.random() < 0.5:
             g.precs = [(rng.choice(["left", "right", "nonassoc"]), [o]) for o in g.tokens[:rng.randint(1, len(g.tokens) - 1)]]
         add("ambiguous", "ON"[i % 2], g, rnd_opts(g), n_inputs=3)
+    # ---- erroneous inputs with SEVERAL repair sequences of the first rank (/repo ca69cd1): the auditor's grammar, the commit's
+    #      grammar, %avoid_insert pushing some of the tied candidates to a lower rank, several choice points in one input ----
+    def tied(fam, rules, tokens, inputs, kind="O", avoid=()):
+        g = G.Gram(tokens, rules, avoid_insert=list(avoid))
+        cs = Case(fam, kind, g, {}, inputs)
+        cases.append(cs)
+    tied("tied_repairs", [("S", [[t("A"), r("X"), t("C")]]), ("X", [[t("B")], [t("D")], [t("E")], [t("F")]])], ["A", "B", "C", "D", "E", "F"],
+         [["A", "C"], ["A", "B", "C"], ["C"], ["A"], ["A", "A", "C"], []])
+    tied("tied_repairs", [("S", [[t("a"), r("B"), t("c")]]), ("B", [[t("b")], [t("d")]])], ["a", "b", "c", "d"], [["a", "c"], ["c"], ["a"]], kind="N")
+    tied("tied_repairs", [("S", [[t("A"), r("X"), t("C")]]), ("X", [[t("B")], [t("D")], [t("E")], [t("F")]])], ["A", "B", "C", "D", "E", "F"],
+         [["A", "C"], ["C"], ["A", "C", "C"]], avoid=["B", "D"])
+    for k in range(2, ctx.n(6, 9)):
+        alts = ["b%d" % j for j in range(k)]
+        alts2 = ["d%d" % j for j in range(k)]
+        g_rules = [("S", [[t("A"), r("X"), t("C"), r("Y"), t("E")], [r("S"), t("S2"), t("A"), r("X")]]),
+                   ("X", [[t(a)] for a in alts]), ("Y", [[t(a)] for a in alts2] + [[t("C"), r("X")]])]
+        toks = ["A", "C", "E", "S2"] + alts + alts2
+        tied("tied_repairs_choice_points", g_rules, toks,
+             [["A", "C", "E"], ["A", "C", "d0", "E"], ["A", alts[0], "C", "E"], ["A", "C", "E", "S2", "A"], ["C", "E"], ["A", "E"], ["A", "C"]],
+             kind="ON"[k % 2], avoid=alts[:1] if k % 3 == 0 else ())
     # ---- lexers with START STATES (lexer + parser): rules active in 2-7 start states; the generated lexer module
     #      quotes every rule's start-state list, the digest prints Rule::start_states() of the run-time definition ----
     for i in range(ctx.n(12, 40)):
@@ -706,6 +759,208 @@ def check_tokmaps(ctx, exe, N):
                                           "constructed equal HashMaps" % N}
 
 
+# ----------------------------------------------------------------------------- failing sources
+NFAIL = 16          # processes for the failing-sources family (cheap: both tiers)
+
+
+def run_fail_procs(exe, lines, nproc):
+    """-> per process (stdout lines, stderr pieces per case)"""
+    def one(_k):
+        p = core.sh([exe, "fail"], input="\n".join(lines) + "\n", timeout=600, limit_mem=True)
+        out = p.stdout.splitlines()
+        err = (p.stderr or "").split("@@C15CASE\n")[1:]
+        while len(out) < len(lines):
+            out.append("CRASH rc=%s" % p.returncode)
+        while len(err) < len(lines):
+            err.append("")
+        return out[:len(lines)], err[:len(lines)]
+    with concurrent.futures.ThreadPoolExecutor(max_workers=min(nproc, core.NPROC)) as ex:
+        return list(ex.map(one, range(nproc)))
+
+
+def _unhex(x):
+    try:
+        return bytes.fromhex(x).decode(errors="replace")
+    except ValueError:
+        return x
+
+
+def decode_fail(line):
+    """readable form of a `c15 fail` result line (for reports)"""
+    out = []
+    for sec in line.split(" # "):
+        f = sec.split(" ")
+        out.append(" ".join([f[0]] + [_unhex(x) if re.fullmatch(r"(?:[0-9a-f]{2}){3,}", x) else x for x in f[1:]]))
+    return out
+
+
+_CONFLICT_RE = re.compile(r"(?:Shift/Reduce|Reduce/Reduce) conflict")
+
+
+def canon_fail(line, errpiece, case):
+    """-> (canonical transcript, raw transcript): the directory name removed; conflict diagnostics as a sorted multiset of blocks;
+    the stderr lists of missing tokens as a sorted multiset of blocks (raw keeps the printed order)"""
+    secs = line.split(" # ")
+    dirname = None
+    keep = []
+    for sec in secs:
+        if sec.startswith("DIRNAME "):
+            dirname = _unhex(sec.split()[1])
+        else:
+            keep.append(sec)
+    raw = list(keep)
+    can = []
+    for sec in keep:
+        f = sec.split(" ")
+        if f[0] == "FB" and len(f) >= 3 and f[1] in ("err", "panic"):
+            text = _unhex(f[2])
+            if _CONFLICT_RE.search(text):
+                blocks = sorted(b for b in text.split("\n\n") if b.strip())
+                sec = "FB %s CONFLICT-BLOCKS %s" % (f[1], "\n\n".join(blocks))
+        can.append(sec)
+    e = errpiece.replace(dirname, "<DIR>") if dirname else errpiece
+    raw.append("STDERR " + e)
+    if case.get("missing_list") and e.strip():
+        ls = e.split("\n")
+        head = [l for l in ls if not (l.startswith(("    ", " ")) and case["mode"] == "M" and case["missing_list"] == "lexer") and not re.match(r"^\d+\| |^\s+\^+ Missing from ", l)]
+        body = [l for l in ls if l not in head]
+        if case["mode"] == "M" and case["missing_list"] == "lexer":
+            blocks = sorted(body)
+        else:
+            blocks = sorted("\n".join(body[i:i + 2]) for i in range(0, len(body), 2))
+        can.append("STDERR " + "\n".join(head) + "\nBLOCKS\n" + "\n".join(blocks))
+    else:
+        can.append("STDERR " + e)
+    return " # ".join(can), " # ".join(raw)
+
+
+def check_failing(ctx, exe, mexe):
+    cases = c15fail.all_cases(ctx.n(10, 30))
+    lines = [c["line"] for c in cases]
+    res = run_fail_procs(exe, lines, NFAIL)
+    ok = True
+    fams = {}
+    order_freedom = {"conflict_blocks_order_differs": 0, "missing_token_list_order_differs": 0}
+    classes = {}
+    model_lines, model_expect = [], []
+    for ci, c in enumerate(cases):
+        outs = [res[k][0][ci] for k in range(NFAIL)]
+        errs = [res[k][1][ci] for k in range(NFAIL)]
+        fams[c["fam"]] = fams.get(c["fam"], 0) + 1
+        ctx.count("failing_family_" + c["fam"])
+        replay = "mkdir -p .work/c15 && echo '%s' | .work/target/release/c15 fail   # run it several times (stderr too)" % c["line"]
+        base = {"family": c["fam"], "mode": {"Y": "yacc source (ASTWithValidityInfo / YaccGrammar::new)", "X": "lexer source (LRNonStreamingLexerDef::from_str)",
+                                              "B": "CTParserBuilder / CTLexerBuilder", "M": "CTLexerBuilder with a rule_ids_map, no parser"}[c["mode"]],
+                "processes": NFAIL, "replay_cmd": replay}
+        for k_ in ("kind", "src", "lex", "opts", "map"):
+            if c.get(k_) is not None:
+                base[{"src": "grammar", "lex": "lexer", "kind": "yacckind", "opts": "settings", "map": "rule_ids_map"}[k_]] = c[k_]
+        if any(o.startswith(("CRASH", "HANG", "BADCASE")) for o in outs):
+            if len(set(o.split()[0] for o in outs)) > 1:
+                ctx.violation(dict(base, what="a failing build crashes / hangs in some processes only", outcomes=sorted(set(o[:160] for o in outs))))
+            else:
+                ctx.violation(dict(base, what="failing-sources harness mode failed", outcomes=sorted(set(o[:160] for o in outs))), no_input=True)
+            ok = False
+            continue
+        cr = [canon_fail(o, e, c) for o, e in zip(outs, errs)]
+        cans = [x[0] for x in cr]
+        raws = [x[1] for x in cr]
+        head = outs[0].split(" # ")[0].split()
+        cls = " ".join(head[:2])
+        classes[cls] = classes.get(cls, 0) + 1
+        n_items = sum(1 for sec in outs[0].split(" # ") if sec.split(" ")[0] in ("E", "W"))
+        ctx.case("failing " + sha(c["line"]), c["faults"] >= 2,
+                 {"family": c["fam"], "case": c["line"][:200], "outcome": decode_fail(outs[0])[:4], "faults_in_source": c["faults"],
+                  "errors_and_warnings_reported": n_items, "distinct_transcripts": len(set(cans))})
+        if len(set(cans)) > 1:
+            ok = False
+            k2 = next(k for k in range(NFAIL) if cans[k] != cans[0])
+            is_epp = c["fam"] in ("unknown_epp", "builder_unknown_epp", "mixed", "builder_mixed", "undefined_start", "builder_undefined_start")
+            known = None
+            if not EPP_FIXED and is_epp and all("UnknownEPP" in " ".join(decode_fail(o)) or "in %epp declaration" in " ".join(decode_fail(o)) for o in outs):
+                known = KNOWN_EPP
+            ctx.violation(dict(base, what="the outcome of a FAILING build (error kinds with arguments, spans, order; warnings; error text; stderr "
+                                          "diagnostics) differs between two processes",
+                               process_a=0, process_b=k2, transcript_a=decode_fail(outs[0]) + ["STDERR " + errs[0][:1500]],
+                               transcript_b=decode_fail(outs[k2]) + ["STDERR " + errs[k2][:1500]], distinct_transcripts=len(set(cans))),
+                          known_key=known)
+            continue
+        if len(set(raws)) > 1:
+            # same multiset of blocks, printed in another order: the allowed freedom (conflicts) / the audited order-only leak (missing tokens)
+            order_freedom["missing_token_list_order_differs" if c.get("missing_list") else "conflict_blocks_order_differs"] += 1
+        # the mirror of the %epp loop must name the reported error
+        if c["fam"] == "unknown_epp":
+            ent = c["epp"]
+            known_keys = [i for i, e in enumerate(ent) if e[3]]
+            r = random.Random(len(model_lines) + 11)
+            orders = [list(range(len(ent))), list(range(len(ent)))[::-1]]
+            for _ in range(3):
+                o = list(range(len(ent)))
+                r.shuffle(o)
+                orders.append(o)
+            model_lines.append("P | %s | %s" % (" ".join(map(str, known_keys)),
+                                                 " ; ".join(" ".join("%d:%d:%d" % (i, ent[i][1], ent[i][2]) for i in o) for o in orders)))
+            model_expect.append((c, outs[0], ent))
+    # ---- tie of the %epp mirror
+    tie_ok = bool(model_lines)
+    mout = core.run_lines([mexe], model_lines) if model_lines else []
+    for ml, mo, (c, out, ent) in zip(model_lines, mout, model_expect):
+        errs_ = []
+        mm = re.findall(r" # M (\S+) F (\S+)", mo)
+        if not mo.startswith("P ") or not mm or "min_allsame=1" not in mo:
+            errs_.append("mirror of the repaired loop is not order-insensitive / driver failed: " + mo[:200])
+        else:
+            want = mm[0][0]
+            got = []
+            for sec in decode_fail(out):
+                if sec.startswith("E "):
+                    got += re.findall(r'^E YaccGrammarError \{ kind: UnknownEPP\("([^"]*)"\), spans: \[Span \{ start: (\d+), end: (\d+) \}\] \}', sec)
+                    if "UnknownEPP" not in sec:
+                        got.append(sec[:80])
+            if want == "none":
+                if got:
+                    errs_.append("mirror: no unknown %%epp; implementation reports %s" % (got,))
+            else:
+                i, a, b = map(int, want.split(":"))
+                if got != [(ent[i][0], str(a), str(b))]:
+                    errs_.append("mirror reports UnknownEPP(%r) @ %d..%d; implementation reports %s" % (ent[i][0], a, b, got))
+            n_unknown = sum(1 for e in ent if not e[3])
+            if n_unknown >= 2 and "first_allsame=0" not in mo:
+                errs_.append("the pinned loop (first unknown key met) should depend on the order with %d unknown keys: %s" % (n_unknown, mo[:200]))
+        if errs_:
+            tie_ok = False
+            ctx.violation({"what": "extracted mirror (epp) and implementation disagree", "grammar": c["src"], "yacckind": c["kind"], "details": errs_,
+                           "model_case": ml, "model_out": mo[:1000], "implementation": decode_fail(out),
+                           "broken_correspondence": "C15.EppModel.validate_epp_min vs ast.rs complete_and_validate (%epp loop)"}, no_input=True)
+    ctx.oblige(ok, "failing_sources")
+    ctx.oblige(tie_ok, "tie_epp")
+    ctx.coverage["failing_sources"] = {
+        "cases": len(cases), "processes": NFAIL, "families": fams, "outcome_classes": classes,
+        "allowed_order_freedom_observed": order_freedom, "epp_mirror_evaluations": len(model_lines),
+        "rule": "per family 2-6 independent faults of one kind in one source (the kind, the names and the textual order vary; yacc kinds "
+                "Original/NoAction, Grmtools, Eco); compared exactly: every error (Debug = kind, arguments, all spans) and Display text in order, "
+                "the warnings, YaccGrammar::new's error list, the builders' error string (directory removed), the .rs files left, stderr; "
+                "compared as multisets of blank-line-separated blocks: conflict diagnostics; as multisets of blocks/lines: the stderr lists of "
+                "tokens missing from lexer / parser.  non-trivial = a source with >= 2 faults"}
+
+
+def check_hash_sites(ctx):
+    rows, problems, gone, names = c15scan.audit(core.REPO)
+    for pr in problems:
+        ctx.violation({"what": "hash-order audit: " + pr["what"], "site": pr["site"], "function": pr["fn"], "code": pr["code"], "operation": pr["how"],
+                       "receiver": pr["receiver"], "audit_key": pr["key"],
+                       "how_to_settle": "read the site; if the result does not depend on the iteration order add an entry to gen/c15scan.py AUDIT, "
+                                        "else it is a defect: the dynamic families (cross-process digests, generated bytes, failing sources) say "
+                                        "whether an input shows it"}, no_input=True)
+    ctx.oblige(not problems and len(rows) > 0, "hash_iteration_audit")
+    verdicts = {}
+    for r_ in rows:
+        verdicts[r_["verdict"]] = verdicts.get(r_["verdict"], 0) + 1
+    ctx.coverage["hash_iteration_sites"] = {
+        "files": c15scan.files(core.REPO), "sites": rows, "verdicts": verdicts, "audit_entries_without_a_site": gone,
+        "names_bound_to_hash_containers": sorted(names)}
+
+
 # ----------------------------------------------------------------------------- running
 def run_procs(exe, mode, lines, nproc, env=None):
     """nproc separate processes, each fed ALL lines (every process has its own hash seeds;
@@ -860,7 +1115,7 @@ def _run(ctx, exe, mexe, rng):
     lines = [c.line() for c in cases]
     dig = run_procs(exe, "digest", lines, N)
     gen = run_procs(exe, "gen", lines, N, env={"C15_KEEP": "1"})
-    thr = run_procs(exe, "threads", lines, ctx.n(2, 4))
+    thr = run_procs(exe, "threads", lines, ctx.n(2, 4), env=None if REPAIR_ORDER_FIXED else {"C15_TIED": "exclude"})
 
     model_cases, model_expect = [], []      # lines for the OCaml driver + closures checking the answer
     flips_seen = 0                          # grammars (>= 2 implicit tokens) where two processes disagreed
@@ -868,6 +1123,8 @@ def _run(ctx, exe, mexe, rng):
     conflict_bytes_seen = 0
     multi_sr_grammars = 0
     info_diffs = {"IXO": 0, "ICR": 0, "IPP": 0}
+    rc_counts = {}
+    oc_counts = {"compared": 0, "with_an_error": 0, "with_2plus_first_rank_repair_sequences": 0, "skipped_by_the_clock_or_flag": 0}
     dig_ok = gen_ok = thr_ok = True
 
     for ci, c in enumerate(cases):
@@ -891,18 +1148,30 @@ def _run(ctx, exe, mexe, rng):
         if not d0.ok:
             # rejected grammar: the property is about successful builds; the error class must still agree
             ctx.count("rejected_" + ds[0].split()[0])
-            if len(set(ds)) > 1:
-                # e.g. WHICH of several invalid %epp declarations is reported follows ast.rs:369 `self.epp.iter()`
-                # (HashMap order).  The property constrains successful builds; recorded, not alarmed.
+            if len(set(ds)) > 1 and len(set(x.split()[0] for x in ds)) == 1:
+                # a failing build must fail the same way everywhere (e.g. WHICH of several invalid %epp declarations is reported)
                 ctx.count("rejected_error_text_differs_between_processes")
-                ctx.coverage.setdefault("observations", []).append(
-                    {"what": "a rejected grammar is rejected with different messages in different processes",
-                     "grammar": c.src, "messages": sorted(set(x[:160] for x in ds))})
+                ctx.violation(dict(base, what="a rejected grammar is rejected with different messages in different processes",
+                                   messages=sorted(set(x[:200] for x in ds)), replay_cmd=replay),
+                              known_key=None if EPP_FIXED else KNOWN_EPP)
+                dig_ok = False
             if len(set(x.split()[0] for x in ds)) > 1:
                 ctx.violation(dict(base, what="grammar accepted in some processes and rejected in others", outcomes=sorted(set(x[:200] for x in ds)), replay_cmd=replay))
                 dig_ok = False
             continue
-        vs = [verdict_sections(x) for x in ds]
+        # CPCT+ outcomes: an input that some process skipped (the clock, not the input, would have decided) is dropped everywhere;
+        # with the code before ca69cd1 (flag off) inputs with tied first-rank repairs as well
+        skipped = set(int(s_.split()[1]) for x in ds for s_ in x.split(" # ") if s_.startswith("IOCSKIP "))
+        ocs = [s_.split(" ", 3) for s_ in ds[0].split(" # ") if s_.startswith("OC ")]
+        if not REPAIR_ORDER_FIXED:
+            skipped |= set(int(f[1]) for x in ds for f in [s_.split(" ", 3) for s_ in x.split(" # ") if s_.startswith("OC ")] if f[2] == "tied=1")
+        oc_counts["skipped_by_the_clock_or_flag"] += len(skipped)
+        for f in ocs:
+            if int(f[1]) not in skipped:
+                oc_counts["compared"] += 1
+                oc_counts["with_an_error"] += 1 if " / err " in f[3] else 0
+                oc_counts["with_2plus_first_rank_repair_sequences"] += 1 if f[2] == "tied=1" else 0
+        vs = [[s_ for s_ in verdict_sections(x) if not (s_.startswith("OC ") and int(s_.split()[1]) in skipped)] for x in ds]
         hs = [sha(" # ".join(v)) for v in vs]
         canon = c.kind + " " + hs[0]
         nontriv = len(c.optional) >= 1
@@ -930,7 +1199,10 @@ def _run(ctx, exe, mexe, rng):
             k2 = next(k for k in range(N) if hs[k] != hs[0])
             fd = first_diff(vs[0], vs[k2])
             in_lexer = fd[1].startswith(("LX", "LQ", "LU")) or fd[2].startswith(("LX", "LQ", "LU"))
-            wit = dict(base, what="digest of YaccGrammar/StateGraph/StateTable queries differs between two processes" if not in_lexer else
+            in_cpct = fd[1].startswith("OC ") or fd[2].startswith("OC ")
+            wit = dict(base, what="the result of parsing an input with CPCT+ recovery (`OC <input> tied=<0|1> val <tree> / err <lexeme> <state> "
+                                  "repairs=<the repairs() list in order>`) differs between two processes" if in_cpct else
+                                  "digest of YaccGrammar/StateGraph/StateTable queries differs between two processes" if not in_lexer else
                                   "the run-time lexer definition (LRNonStreamingLexerDef::from_str of the same lexer source: `LU <rule> <token id> "
                                   "<name> <regex> <Rule::start_states() in order> <target state>`) differs between two processes",
                        process_a=0, process_b=k2, first_differing_section={"index": fd[0], "a": fd[1], "b": fd[2]},
@@ -950,6 +1222,11 @@ def _run(ctx, exe, mexe, rng):
                     ctx.count("implicit_orders_seen_%d" % len(groups))
                     wit["implicit_token_orders_seen"] = [list(o) for o in groups]
                     wit["explained_by"] = "C15_build_implicit_order_insensitive_refuted / C15_build_implicit_sensitive"
+            if in_cpct:
+                try:
+                    wit["input"] = " ".join(c.inputs[int((fd[1] if fd[1].startswith("OC ") else fd[2]).split()[1])])
+                except (ValueError, IndexError):
+                    pass
             if in_lexer:
                 wit["lexer"] = c.lex
                 for tag in ("a", "b"):
@@ -1006,6 +1283,13 @@ def _run(ctx, exe, mexe, rng):
                 ctx.violation(wit, known_key=known)
 
         # ---------------- (3) threads ----------------
+        for tl in [t[ci] for t in thr]:
+            m = re.search(r" # RC noerr=(\d+) unique=(\d+) tied=(\d+) norepair=(\d+) slow=(\d+) other=(\d+) notplain=(\d+)", tl)
+            if m:
+                for nm, v in zip(("no_error", "one_first_rank_repair_sequence", "2plus_first_rank_repair_sequences" + ("" if REPAIR_ORDER_FIXED else "_EXCLUDED"),
+                                  "no_repair_found", "recovery_not_ended_by_itself_EXCLUDED", "panic_or_lex_error_EXCLUDED",
+                                  "table_with_conflicts_or_precedence_EXCLUDED"), m.groups()):
+                    rc_counts[nm] = rc_counts.get(nm, 0) + int(v)
         for k, tl in enumerate([t[ci] for t in thr]):
             if not tl.startswith("THREADS") or " # TOK" not in tl or "SEQ-DIFFERS" in tl:
                 thr_ok = False
@@ -1135,6 +1419,12 @@ def _run(ctx, exe, mexe, rng):
     # ---- (2c) token-map modules ----
     check_tokmaps(ctx, exe, N)
 
+    # ---- (5) failing sources: error transcripts, warnings, builder error strings, stderr diagnostics ----
+    check_failing(ctx, exe, mexe)
+
+    # ---- (6) static table of the iterated randomly seeded containers ----
+    check_hash_sites(ctx)
+
     # ---- run the extracted mirrors ----
     mout = core.run_lines([mexe], model_cases)
     tie_bad = {}
@@ -1196,9 +1486,19 @@ def _run(ctx, exe, mexe, rng):
         "conflict_list_order_differs (IXO)": info_diffs["IXO"],
         "core_reduces_member_differs (ICR)": info_diffs["ICR"],
         "pretty_printer_hash_differs (IPP)": info_diffs["IPP"]}
+    ctx.coverage["cpct_plus_inputs_in_thread_runs"] = dict(rc_counts, rule=(
+        "per input of every thread-mode process (tables without conflicts and without precedence only: elsewhere CPCT+ may not end, findings "
+        "of C05-C07): parsed once with CPCT+ under a 40 ms budget; if that ended within 20 ms (every recovery ended by itself, the clock decided "
+        "nothing) the 8 threads x 4 rounds parse it with CPCT+ too (8 s budget) and must return the sequential outcome: tree, per error its "
+        "lexeme, state and the complete repairs() list in order; inputs with >= 2 repair sequences of the first rank (rank = (contains an "
+        "%avoid_insert insertion, length)) are " + ("INCLUDED (REPAIR_ORDER_FIXED)" if REPAIR_ORDER_FIXED else "excluded (code before ca69cd1)")))
+    ctx.coverage["cpct_plus_inputs_in_digests"] = dict(oc_counts, rule=(
+        "the same outcome string as a section of the cross-process digest (%d processes); an input skipped by any process (parse not ended within "
+        "20 ms) is dropped in all of them" % N))
     ctx.coverage["mirror_evaluations"] = tie_n
     ctx.coverage["known_keys"] = KNOWN_KEYS
-    ctx.coverage["flags"] = {"IMPLICIT_FIXED": IMPLICIT_FIXED, "CONFLICT_ORDER_FIXED": CONFLICT_ORDER_FIXED}
+    ctx.coverage["flags"] = {"IMPLICIT_FIXED": IMPLICIT_FIXED, "CONFLICT_ORDER_FIXED": CONFLICT_ORDER_FIXED, "EPP_FIXED": EPP_FIXED,
+                             "REPAIR_ORDER_FIXED": REPAIR_ORDER_FIXED}
     ctx.assumptions += [
         "hash seeds of separate OS processes are independent (std RandomState); N processes sample N iteration orders — sampling, not enumeration",
         "OnceLock model: get_or_init is atomic in the sense of Model.v (e) (std's documented contract); thread interleavings of the real code are sampled (8 threads x 4 rounds per grammar per process), not enumerated",
@@ -1206,5 +1506,9 @@ def _run(ctx, exe, mexe, rng):
         "%avoid_insert sets, state graphs and table rows (reduce/accept phase of a row recomputed in Python from the dumped closed item sets)",
         "gc itself is private: its mirror is tied only through the post-condition on the final graph (all states reachable, mirror gc = identity)",
         "FNV (fixed-seed) item-set maps are deterministic and therefore outside the permutation theorems; their determinism is covered by the cross-process digests only",
-        "inputs are parsed with recovery off (CPCT+ picks among equal-rank repairs nondeterministically by design)",
+        "CPCT+ results are compared only where the parse ended by itself within 20 ms of a 40 ms budget (else the wall clock, not the "
+        "input, may decide what recovery returns) and only on tables without conflicts and precedence",
+        "the table of hash-iteration sites comes from a TEXTUAL scan (regular expressions, receivers recognised by name, one level of "
+        "aliasing); a container that reaches an iteration under a name the scan cannot connect to its declaration is not listed",
+        "stderr of a harness process is cut into per-case pieces at marker lines the harness writes itself",
     ]
